@@ -106,7 +106,7 @@ Outcome(r, op) ==
     [] op = "CM" /\ ~upds[UpdOf(c)].committed /\ stg[UpdOf(c)] # upds[UpdOf(c)].nj -> "err"         \* wrong number of jobs
     [] OTHER -> "cont"
 
-Step(h) ==                     \* one transaction of a running handler; after the last one the response goes out
+StepH(h) ==                    \* one transaction of a running handler; after the last one the response goes out
   /\ h \in hs
   /\ LET r == h.req  s == Script(r)  op == s[h.pc]  out == Outcome(r, op) IN
      /\ IF out # "cont" THEN UNCHANGED <<nbatch, upds, jobs, groups, stg, bnj>>
@@ -120,6 +120,8 @@ Step(h) ==                     \* one transaction of a running handler; after th
         ELSE /\ hs' = hs \ {h}
              /\ resp' = IF out = "err" THEN resp ELSE resp \cup {r}
   /\ UNCHANGED <<sent, ndeliv, cpc, cuid, cstart, cgstart>>
+
+Step(r, n) == \E h \in hs : h.req = r /\ h.n = n /\ StepH(h)
 
 \* ---- clients -----------------------------------------------------------------------------------------------------------------
 \* Batch._submit: the creator goes first, the other clients need the batch to exist (they hold its id).  A client moves on
@@ -148,7 +150,7 @@ Client(c) ==
         /\ UNCHANGED sent
   /\ UNCHANGED <<nbatch, upds, jobs, groups, stg, bnj, ndeliv, hs, resp>>
 
-Next == (\E r \in Req : Deliver(r)) \/ (\E h \in hs : Step(h)) \/ (\E c \in Clients : Client(c))
+Next == (\E r \in Req : Deliver(r)) \/ (\E r \in Req, n \in 1..MaxDeliveries : Step(r, n)) \/ (\E c \in Clients : Client(c))
 Spec == Init /\ [][Next]_vars
 
 -----------------------------------------------------------------------------
